@@ -278,6 +278,12 @@ def cases(thorough: bool) -> List[dict]:
                 for entry in ("evaluate", "exploratory"):
                     for lfe in (-0.5, 0.3):
                         out.append(dict(base, lfe=lfe, entry=entry))
+    # the extension factor exactly on the limits of its documented range
+    for test in KK.LINEAR_TESTS:
+        for adm, C in itertools.product((False, True), (False, True)):
+            for L in ((True,) if test.endswith("-inv") else (False, True)):
+                for lfe in (-1.0, 1.0):
+                    out.append({"test": test, "adm": adm, "C": C, "L": L, "ppd": 10, "fmax": 4, "num_RC": 5, "lfe": lfe, "signs": "plus", "scale": 1.0})
     # call sequences: a test preceded, in the same process, by a test on a related spectrum. Grid variants share the point count (41)
     # and one or both end points with the base grid; parameter variants share the frequencies
     GV = {"base": {"ppd": 10, "fmax": 4, "dec": 4, "warp": 1.0}, "other-fmin": {"ppd": 8, "fmax": 4, "dec": 5, "warp": 1.0},
